@@ -301,8 +301,10 @@ def _guarded(fn, arg, seconds=30):
     def on_alarm(signum, frame):
         raise _Hang()
     # (processor time of this worker, not wall-clock time: a busy machine must not look like a loop that never ends)
+    from ..core import preload
+    preload()                       # imports are not part of the call under test (see core.preload)
     old = signal.signal(signal.SIGPROF, on_alarm)
-    signal.setitimer(signal.ITIMER_PROF, seconds)
+    signal.setitimer(signal.ITIMER_PROF, max(seconds, 120))
     try:
         return fn(arg)
     finally:
@@ -316,7 +318,7 @@ def run_case(job):
         return _guarded(_run_case, job)
     except _Hang:
         c = job[0]["post"]
-        return 0, [bad(f"{c['op']} {c.get('s', c.get('cl'))} rotation {c.get('rot')}: the call did not return within 30 s "
+        return 0, [bad(f"{c['op']} {c.get('s', c.get('cl'))} rotation {c.get('rot')}: the call did not return within 120 s of processor time "
                        f"(rejection sampling never finds a point inside the cell)")]
 
 
@@ -867,7 +869,7 @@ def mut_path(job):
         return _guarded(_mut_path, job, 60)
     except _Hang:
         return 0, [bad(f"history {[_call_text(job[0], x['call']) for x in job[1]]}: a call did not return "
-                       f"within 60 s (rejection sampling never finds a point inside the cell)")]
+                       f"within 120 s of processor time (rejection sampling never finds a point inside the cell)")]
 
 
 def _apply(alpha, obj, wrap, e):
